@@ -9,6 +9,7 @@ import _pickle
 import pickle
 
 ORIG = (pickle.load, pickle.loads, _pickle.load, _pickle.loads)      # before fickling is imported
+ORIG_UNPICKLER = pickle.Unpickler
 
 sys.path.insert(0, os.path.join(os.path.dirname(os.path.abspath(__file__)), "natmods"))
 import verif_sink  # noqa: E402
@@ -22,6 +23,7 @@ ADD = ["verif_nat.Plain", "collections.Counter"]
 
 def reset():
     pickle.load, pickle.loads, _pickle.load, _pickle.loads = ORIG
+    pickle.Unpickler = ORIG_UNPICKLER
 
 
 def probe(i):
